@@ -187,13 +187,13 @@ def run(run):
                 run.note("MODULES_LKM names %s which are not registered modules (no effect on selection)" % extra)
             run.check("R2", "lkm-subset-nonempty", any(n in known for n in names), "MODULES_LKM selects no registered module", F.loc(lkm[0]["body"]))
         # the run loop
-        loops = [(i, st) for i, st in enumerate(stmts) if st[0] == "match" and any(isinstance(x, tuple) and x and x[0] == "callind" for x in S.subterms(st))]
+        loops = [(i, st) for i, st in enumerate(stmts) if st[0] == "for" and any(isinstance(x, tuple) and x and x[0] == "callind" for x in S.subterms(st))]
         if len(loops) != 1:
             run.undecided("R2", "run-loop", "expected exactly one loop invoking module.run; found %d" % len(loops), site)
         else:
             i, lp = loops[0]
             run.check("R2", "run-loop|after-filter", i > muts[0], "modules are run before the selection is applied", site)
-            it = lp[1]
+            it = lp[2]
             run.check("R2", "run-loop|iterates-modules", any(isinstance(x, tuple) and x and x[0] == "var" and x[1] == "modules" for x in S.subterms(it)) and not any(is_call(x, ("filter", "take", "skip", "step_by", "rev", "take_while", "skip_while")) for x in S.subterms(it)), "the run loop must iterate the whole filtered module list; iterable: %s" % fmt(it), site)
             ci = [x for x in S.subterms(lp) if isinstance(x, tuple) and x and x[0] == "callind"]
             c = ci[0]
@@ -204,7 +204,7 @@ def run(run):
                 k = idx[2][1]
                 key_ok = k[0] == "field" and k[2] == "name" and k[1] == c[1][1]
             run.check("R2", "run-loop|runs-module-with-its-config", bool(good and key_ok), "each selected module must be run as (module.run)(&analysis_results, &config[&module.name]); found %s" % fmt(("callind",) + c[1:])[:200], site)
-            exits = [x for x in S.subterms(lp) if isinstance(x, tuple) and x and x[0] in ("return",)] + [x for x in S.subterms(lp[2][0][2]) if isinstance(x, tuple) and x == ("continue",)]
+            exits = [x for x in S.subterms(lp) if isinstance(x, tuple) and x and x[0] in ("return",)] + [x for x in S.subterms(lp[3]) if isinstance(x, tuple) and x == ("continue",)]
             run.check("R2", "run-loop|no-early-exit", not exits, "the run loop must not skip or stop early", site)
 
     run.guarded("R2", r2)
